@@ -12,9 +12,9 @@
 //!
 //! `Editor` is not `Clone`: a state is re-created by REPLAY.  Every discovered state keeps one shortest history (parent
 //! pointer + operation); to take one transition a fresh session of the configuration is built, the history is replayed
-//! (no records; the oracles are fed with the replayed steps through a muted `Out`, because some of them keep state
-//! across the steps of a session — C05's list frames, C02's ledger — every replayed step was recorded and judged when it
-//! was first explored), then the one operation is applied by `step` below: the same snapshots, answers, oracles and
+//! (no records; when the state has an open candidate list or a highlighted range the oracles are fed with the replayed
+//! steps through a muted `Out`, because some of them keep state across the steps of a session — C05's list frames,
+//! C02's ledger — every replayed step was recorded and judged when it was first explored; otherwise by bare calls), then the one operation is applied by `step` below: the same snapshots, answers, oracles and
 //! record text as the generated sessions of main.rs (`rec_ok` / `rec_panic` / `rec_cands`).  When a transition leads
 //! back to the state it started from (an ignored key, a bell, a no-op call: the majority) the live session is kept
 //! for the next operation instead of being rebuilt; its history then contains that loop step (histories in reports
@@ -134,31 +134,62 @@ fn base_opts(engine: u8, thr: usize) -> EditorOptions {
     }
 }
 
-/// Σ of a configuration (`alt` = the second option profile: + Shift+Z, the two-character easy-symbol expansion)
-fn alphabet(alt: bool) -> Vec<Op> {
+/// Σ of a configuration.  `sigma` names the part of the alphabet beyond the CORE (which every configuration has):
+/// core = the keys of the syllables (they are also the digits that choose candidates and the list movers j / k), 13
+///        navigation / editing keys (all but Tab, see below), a key without a character, the 13 API operations;
+/// hl   = core + Shift+Left / Shift+Right (highlighting; the user dictionary grows, see below);
+/// sym  = core + one punctuation key (full-width comma: has a special-symbol list), the symbol-table key (backtick), a
+///        NumLock digit (+ Shift+Z, the two-character easy-symbol expansion, in the `alt` option profile);
+/// mode = core + CapsLock (language mode) + Shift+Space (character form / an ordinary key without the toggle option);
+/// lean = core - {0, k, Space};
+/// tab  = core + Tab;
+/// full = core + hl + sym + mode + Tab (the alphabet of the work package, 42 / 43 operations).
+/// Every symbol a key can put into the buffer multiplies the world (buffer contents x commit string x modes): the
+/// reduced alphabets are what CLOSES within the budget; `full` is explored to the budget and reported as not closed.
+fn alphabet(alt: bool, sigma: &str) -> Vec<Op> {
     use KeyCode::*;
     let plain = Modifiers::default();
     let mut v: Vec<Op> = vec![];
     // the keys of the syllables (incl. what types a bare tone `3`, an incomplete syllable `1`, `2 j`) = the digits that
     // choose candidates 1 2 3 9 0 and the list movers j k
-    for c in [N1, N2, N3, N9, N0, J, K] {
+    for c in [N1, N2, N3, N9, J] {
         v.push(Op::Key(c, plain));
     }
-    for c in [Left, Right, Home, End, Up, Down, PageUp, PageDown, Space, Tab, Enter, Esc, Backspace, Del] {
+    for c in [Left, Right, Home, End, Up, Down, PageUp, PageDown, Enter, Esc, Backspace, Del] {
         v.push(Op::Key(c, plain));
     }
-    v.push(Op::Key(Left, Modifiers::shift()));
-    v.push(Op::Key(Right, Modifiers::shift()));
-    v.push(Op::Key(Unknown, Modifiers::capslock()));
-    v.push(Op::Key(Space, Modifiers::shift()));
-    // one punctuation key (full-width comma: has a special-symbol list), the symbol-table key, a NumLock digit, a key
-    // without a character
-    v.push(Op::Key(Comma, plain));
-    v.push(Op::Key(Grave, plain));
-    v.push(Op::Key(N1, Modifiers::numlock()));
+    if sigma != "lean" {
+        // 0 (ㄢ) and k (ㄜ) double the phonetic buffers; Space inserts a blank, on which Down opens the symbol table (20
+        // more symbols): `lean` = core without these three is what closes for thresholds above 1
+        for c in [N0, K, Space] {
+            v.push(Op::Key(c, plain));
+        }
+    }
+    // Tab at the end of a non-empty buffer increments `nth_conversion` WITHOUT BOUND (it is reduced modulo the number of
+    // alternatives only where it is read, and reset by commit / clear): with Tab the reachable set is infinite and no
+    // exploration can close.  Tab is therefore only in the alphabets `tab` (= core + Tab) and `full`.
+    if sigma == "tab" || sigma == "full" {
+        v.push(Op::Key(Tab, plain));
+    }
+    // Shift+Left / Shift+Right highlight a range and the key that ends the highlight ADDS the range to the user dictionary
+    // (like Ctrl+digit): the user dictionary then grows (2^(learnable phrases) dictionary worlds; the dictionary snapshot is
+    // part of the identity, so this is explored, not hidden) - only in the alphabets `hl` (= core + these two) and `full`
+    if sigma == "hl" || sigma == "full" {
+        v.push(Op::Key(Left, Modifiers::shift()));
+        v.push(Op::Key(Right, Modifiers::shift()));
+    }
     v.push(Op::Key(Unknown, plain));
-    if alt {
-        v.push(Op::Key(Z, Modifiers::shift()));
+    if sigma == "mode" || sigma == "full" {
+        v.push(Op::Key(Unknown, Modifiers::capslock()));
+        v.push(Op::Key(Space, Modifiers::shift()));
+    }
+    if sigma == "sym" || sigma == "full" {
+        v.push(Op::Key(Comma, plain));
+        v.push(Op::Key(Grave, plain));
+        v.push(Op::Key(N1, Modifiers::numlock()));
+        if alt {
+            v.push(Op::Key(Z, Modifiers::shift()));
+        }
     }
     for n in [0usize, 1, 7] {
         v.push(Op::Select(n));
@@ -170,31 +201,33 @@ fn alphabet(alt: bool) -> Vec<Op> {
     v
 }
 
-/// engines {chewing, simple, fuzzy} x auto_commit_threshold {1, 2, 3} x profiles {dflt, alt}
+/// engines {chewing, simple, fuzzy} x auto_commit_threshold {1, 2, 3} x option profiles {dflt, alt} x alphabets
 /// dflt: page size 10, everything else off, full-width toggle key on
 /// alt : page size 2, space_is_select_key, esc_clear_all_buffer, phrase_choice_rearward, easy_symbol_input,
 ///       auto_shift_cursor, full-width toggle key off (Shift+Space is then an ordinary key)
 pub fn configs() -> Vec<Config> {
     let mut out = vec![];
-    for thr in [1usize, 2, 3] {
-        for engine in [1u8, 0, 2] {
-            for alt in [false, true] {
-                let mut o = base_opts(engine, thr);
-                if alt {
-                    o.candidates_per_page = 2;
-                    o.space_is_select_key = true;
-                    o.esc_clear_all_buffer = true;
-                    o.phrase_choice_rearward = true;
-                    o.easy_symbol_input = true;
-                    o.auto_shift_cursor = true;
-                    o.enable_fullwidth_toggle_key = false;
+    for sigma in ["lean", "core", "hl", "sym", "mode", "tab", "full"] {
+        for thr in [1usize, 2, 3] {
+            for engine in [1u8, 0, 2] {
+                for alt in [false, true] {
+                    let mut o = base_opts(engine, thr);
+                    if alt {
+                        o.candidates_per_page = 2;
+                        o.space_is_select_key = true;
+                        o.esc_clear_all_buffer = true;
+                        o.phrase_choice_rearward = true;
+                        o.easy_symbol_input = true;
+                        o.auto_shift_cursor = true;
+                        o.enable_fullwidth_toggle_key = false;
+                    }
+                    out.push(Config {
+                        id: format!("{}-t{}-{}-{}", engine_name(engine), thr, if alt { "alt" } else { "dflt" }, sigma),
+                        engine,
+                        opts: o,
+                        alphabet: alphabet(alt, sigma),
+                    });
                 }
-                out.push(Config {
-                    id: format!("{}-t{}-{}", engine_name(engine), thr, if alt { "alt" } else { "dflt" }),
-                    engine,
-                    opts: o,
-                    alphabet: alphabet(alt),
-                });
             }
         }
     }
@@ -405,6 +438,10 @@ struct Node {
     parent: u32,
     op: u16,
     depth: u32,
+    /// a candidate list is open or a range is highlighted in this state: its history is replayed THROUGH the oracles
+    /// (muted), because C05's list frames / C02's ledger need the steps since the list was opened; the history of a
+    /// plain Entering / EnteringSyllable state is replayed by bare calls (nothing is pending across steps there)
+    feed: bool,
 }
 
 pub struct Report {
@@ -446,7 +483,7 @@ fn explore(ex: &mut Explorer, w: &World, cfg: &Config, max_transitions: u64, dea
         *kinds.entry(kind_of(&snap)).or_insert(0) += 1;
         keys.push(identity(&snap, &dict));
         index.insert(keys[0].clone(), 0);
-        nodes.push(Node { parent: u32::MAX, op: 0, depth: 0 });
+        nodes.push(Node { parent: u32::MAX, op: 0, depth: 0, feed: false });
         queue.push_back(0);
         ex.out.sample(&format!("bfs {} initial state: {} | {}", cfg.id, snap, dict));
     }
@@ -479,12 +516,23 @@ fn explore(ex: &mut Explorer, w: &World, cfg: &Config, max_transitions: u64, dea
                     let mut l = Live { s: build(w, cfg), history: vec![label.clone()], cand: None };
                     ex.out.mute = true;
                     let mut ok = true;
+                    let feed = nodes[i as usize].feed;
                     for h in &hist {
                         ex.replayed_steps += 1;
-                        if ex.step(&mut l, &cfg.alphabet[*h as usize], false).is_none() {
-                            ok = false;
+                        let hop = &cfg.alphabet[*h as usize];
+                        if feed {
+                            ok &= ex.step(&mut l, hop, false).is_some();
+                        } else {
+                            ok &= apply(&mut l.s, hop).is_ok();
+                            l.history.push(op_s(hop, &event(hop)));
+                        }
+                        if !ok {
                             break;
                         }
+                    }
+                    if !feed {
+                        l.s.conv_log.borrow_mut().clear();
+                        l.cand = None;
                     }
                     ex.out.mute = false;
                     let here = identity(&l.s.ed.verif_snapshot(), &l.s.dict_s());
@@ -514,7 +562,7 @@ fn explore(ex: &mut Explorer, w: &World, cfg: &Config, max_transitions: u64, dea
                     let n = nodes.len() as u32;
                     index.insert(id.clone(), n);
                     keys.push(id);
-                    nodes.push(Node { parent: i, op: oi as u16, depth: depth + 1 });
+                    nodes.push(Node { parent: i, op: oi as u16, depth: depth + 1, feed: matches!(post.as_bytes()[0], b'S' | b'H') });
                     max_depth = max_depth.max(depth + 1);
                     queue.push_back(n);
                     *kinds.entry(kind_of(&post)).or_insert(0) += 1;
@@ -564,16 +612,22 @@ pub fn run(out: &mut Out, seed: u64, thorough: bool, which: &str, args: &[String
     };
     let w = World { layer: system_layer(&syls), abbr };
     let all = configs();
-    let chosen: Vec<Config> = all.iter().filter(|c| which == "all" || c.id == which).cloned().collect();
+    // `all` = the registered family.  quick: the six `lean` worlds of threshold 1 (3 engines x 2 option profiles; each closes
+    // in < 1 000 states); thorough: `lean` for every engine x threshold x option profile, and for the chewing engine at
+    // threshold 1 also `core`, `hl`, `sym`, `mode` and the work package's `full` alphabet (with Tab: infinite, never
+    // closes).  Any single configuration of `configs()` can be named instead.
+    let in_all = |c: &Config| {
+        let t1 = c.opts.auto_commit_threshold == 1;
+        if thorough { c.id.ends_with("-lean") || (t1 && c.engine == 1 && !c.id.ends_with("-tab")) } else { t1 && c.id.ends_with("-lean") }
+    };
+    let chosen: Vec<Config> = all.iter().filter(|c| if which == "all" { in_all(c) } else { c.id == which }).cloned().collect();
     if chosen.is_empty() {
         eprintln!("unknown BFS configuration `{}`; known: {}", which, all.iter().map(|c| c.id.as_str()).collect::<Vec<_>>().join(" "));
         std::process::exit(2);
     }
     let arg = |name: &str| -> Option<u64> { args.iter().position(|a| a == name).and_then(|i| args.get(i + 1)).and_then(|v| v.parse().ok()) };
-    // quick: a budget of transitions shared evenly by the configurations (≈ 40 s with the model driver); thorough: every
-    // configuration to closure, at most 10^6 transitions each
-    let total: u64 = arg("--bfs-transitions").unwrap_or(if thorough { 1_000_000 * chosen.len() as u64 } else { 36_000 });
-    let per_cfg = if thorough { arg("--bfs-transitions").unwrap_or(1_000_000) } else { total / chosen.len() as u64 };
+    // budget of transitions per configuration (quick: 45 000, ≈ 40 s for the six worlds + ≈ 20 s model driver; thorough: 10^6)
+    let per_cfg = arg("--bfs-transitions").unwrap_or(if thorough { 1_000_000 } else { 45_000 });
     let deadline_s = arg("--bfs-seconds");
     let mut ex = Explorer { out, seed, c17: crate::oracle_c17::Stats::new(), sid: 0, replayed_steps: 0, rebuilds: 0, panics: 0, getter_fails: 0 };
     let mut reports = vec![];
@@ -601,6 +655,6 @@ pub fn run(out: &mut Out, seed: u64, thorough: bool, which: &str, args: &[String
     o.stat("bfs_accessor_failures", ex.getter_fails);
     o.stat("bfs_oracle_verdicts_failing", o.oracle_fails);
     o.stat("bfs_dictionary", "ㄅㄞˇ=百/擺 ㄨˇ=五/午/舞 ㄉㄨˇ=賭/堵 ㄨˇㄅㄞˇ=五百 ㄅㄞˇㄨˇ=擺舞".replace(' ', "_"));
-    o.stat("bfs_user_dictionary_growth", "excluded:_no_Ctrl+digit,_learn,_unlearn_in_the_alphabet;_auto-learn_disabled");
+    o.stat("bfs_user_dictionary_growth", "no_Ctrl+digit,_learn,_unlearn_in_any_alphabet;_auto-learn_disabled;_alphabets_hl_and_full_have_Shift+arrows_(the_key_ending_a_highlight_adds_a_user_phrase):_the_dictionary_snapshot_is_part_of_the_state_identity");
     ex.c17.print(o);
 }
